@@ -145,18 +145,56 @@ class ExprMixin:
 
     def ev_BoolOp(self, n, fr):
         is_and = isinstance(n.op, ast.And)
-        v = None
-        for i, e in enumerate(n.values):
-            v = self.ev(e, fr)
-            if i == len(n.values) - 1:
-                return v
-            c = self.truth(v, fr, n)
-            d = self.run.decide(c, 'boolop')
+        v = self.ev(n.values[0], fr)
+        for i, e in enumerate(n.values[1:]):
+            c = sym.simp(self.truth(v, fr, n))
+            if z3.is_true(c) or z3.is_false(c):
+                d = z3.is_true(c)
+            else:
+                merged = self.try_merge_operand(v, c, is_and, e, fr, n)
+                if merged is not None:
+                    v = merged
+                    continue
+                d = self.run.decide(c, 'boolop')
             if is_and and not d:
                 return v
             if not is_and and d:
                 return v
+            v = self.ev(e, fr)
         return v
+
+    def try_merge_operand(self, v, c, is_and, e, fr, n):
+        """`v and e` / `v or e` without forking when e is call-free: the operand is evaluated under its guard"""
+        from .interp_stmt import _simple_expr
+        if not isinstance(v, SV) or not _simple_expr(e):
+            return None
+        run = self.run
+        guard = c if is_and else sym.simp(z3.Not(c))
+        snap = (len(run.pc), len(run.obls), run.nfresh, dict(self.heap.a))
+        run.no_fork += 1
+        run.solver.push()
+        n0 = len(run.pc)
+        run.pc.append(guard)
+        try:
+            try:
+                w = self.ev(e, fr)
+            except (NoForkAbort, Stop, Unsupported):
+                del run.pc[snap[0]:]
+                del run.obls[snap[1]:]
+                run.nfresh = snap[2]
+                self.heap.a.clear(); self.heap.a.update(snap[3])
+                return None
+            extra = run.pc[n0 + 1:]
+            del run.pc[n0:]
+        finally:
+            run.no_fork -= 1
+            run.solver.pop()
+        if not isinstance(w, SV):
+            del run.obls[snap[1]:]
+            return None
+        for x in extra:
+            run.assume(z3.Implies(guard, x))
+        return SV(sym.simp(z3.If(guard, w.t, v.t)))
 
     def ev_UnaryOp(self, n, fr):
         v = self.ev(n.operand, fr)
